@@ -233,7 +233,7 @@ def check(ctx):
             ctx.disagree("bisect_float", case, got, mo)
     # ---------------- implied volatility round trip (predicate on the real modules)
     from pfhedge.nn import BSEuropeanOption, BSLookbackOption, BSEuropeanBinaryOption, BSAmericanBinaryOption
-    for _ in range(60 if ctx.tier == "quick" else 800):
+    for _ in range(150 if ctx.tier == "quick" else 1000):
         which = g.choice(["european", "european_put", "lookback", "binary", "american_binary"])
         k = g.choice([0.5, 1.0, 2.0])
         sig = g.r.uniform(0.02, 0.95)
